@@ -994,9 +994,9 @@ ConcurrentTransientHashSet<T, H, E>::begin() noexcept {
   while (ABSL_PREDICT_FALSE(node != nullptr)) {
     iter = node->table.begin();
     if (iter != node->table.end()) {
-      return {nullptr, iter};
+      return {node->next.load(::std::memory_order_acquire), iter};
     }
-    node = _head.next.load(::std::memory_order_acquire);
+    node = node->next.load(::std::memory_order_acquire);
   }
   return {};
 }
@@ -1185,7 +1185,7 @@ ABSL_ATTRIBUTE_NOINLINE void ConcurrentTransientHashSet<T, H, E>::reserve(
 template <typename T, typename H, typename E>
 ABSL_ATTRIBUTE_NOINLINE size_t ConcurrentTransientHashSet<T, H, E>::total_size(
     TableNode* node) const noexcept {
-  auto sum = _head.table.bucket_count();
+  auto sum = _head.table.size();
   while (true) {
     auto next = node->next.load(::std::memory_order_acquire);
     if (next == nullptr) {
